@@ -151,6 +151,11 @@ func checkC10(p *Prog, r *Report) {
 	}
 	checkPersistentStoresOnly(p, r, kp, "state kept there is lost by a node that restarts and kept by one that does not")
 
+	// D2e no per-file language downgrade (langver.go): the store loader's `&u.StoreUpgrades` relies on per-iteration loop variables
+	checkNoLanguageDowngrade(p, r, "C10")
+	// D2f the bytes a store hands out are not modified in place (storeget.go)
+	checkStoreGetNotModified(p, r, "C10")
+
 	// D2c start-up writes nothing: an sdk.Context (the only way to reach a keeper) or a raw committed store is obtained only
 	// by block processing (baseapp supplies the context) and by the export command. Anything written through a context made
 	// at start-up goes straight into the committed store's working set, outside any block.
